@@ -162,7 +162,7 @@ def _shard(sh, ctx):
         seed, d1 = M.depth1(sname)
         for i in idxs:
             # every pair for the edits that exercise the action vocabulary (conflicting field pairs, execution counts, minors), a stride for the rest
-            dense = d1[i][0] in M.COMPACT_LABELS or d1[i][1]['kind'] in ('execution_count', 'minor', 'rerun')
+            dense = d1[i][0] in M.COMPACT_LABELS or d1[i][1]['kind'] in ('execution_count', 'minor', 'rerun') or any(x in d1[i][0] for x in (':comment', ':quote', ':ins1'))
             for j in (range(len(d1)) if dense else range(i % step, len(d1), step)):
                 decs, exc = M.run_decide(seed, d1[i][2], d1[j][2], M.MERGETOOL)
                 if exc is not None:
